@@ -12,7 +12,9 @@ Legs (every leg is a complete product of a stated alphabet, nothing is sampled):
 (B) speak    : plans produced by deliberate / rag_once x dialogue templates x style prefixes x snippets;
                whitespace-token count of the utterance <= the token budget; same for ``llm_speak`` over a menu
                of adapter answers.
-(C) turns    : real ``run_turn`` (real T1/T2/T3/T4/apply on a small world) x config menu x scripted plans, with a
+(B2) sweep   : the same speak / llm_speak inputs with every ASCII-whitespace kind between the tokens of the free-text inputs
+               (space, newline, tab, CRLF, mixed) x EVERY budget from 1 to the natural length of the utterance + 1.
+(C) turns   : real ``run_turn`` (real T1/T2/T3/T4/apply on a small world) x config menu x scripted plans, with a
                counting wrapper on the orchestrator's ``t2_semantic`` seam: <= 1 + 1 retrievals per turn.
 (D) sanitiser: every token sequence up to a length bound from three alphabets (single tokens; composite tokens;
                wrapper* composite wrapper*).  Oracle: never raises; ok => the text is acceptable for an independent
@@ -25,6 +27,7 @@ import itertools
 import json
 import math
 import os
+import re
 import shutil
 import sys
 import types
@@ -352,26 +355,57 @@ RETRIEVED = [
     [{"id": "e1", "score": 0.9, "owner": "A", "quarter": "", "text": "alpha beta gamma"},
      {"id": "e2", "score": 0.5, "owner": "A", "quarter": "", "text": "delta\tepsilon"},
      {"id": "e3", "score": 0.1, "owner": "A", "quarter": "", "text": "zeta"}],
+    # episode texts with line breaks (notes, bulleted lists): the tokens of {snippets_text} are then not space-separated
+    [{"id": "m1", "score": 0.8, "owner": "A", "quarter": "", "text": "first line\nsecond line\n\nthird"},
+     {"id": "m2", "score": 0.7, "owner": "A", "quarter": "", "text": "- item one\n- item\ttwo"}],
 ]
+N_RETRIEVED_MAIN = 2   # leg (B) uses the first two sets; the multi-line set is covered (with every budget) by the sweep leg (B2)
+
+# ---- whitespace kinds: the budget is defined over whitespace-separated tokens, so WHICH whitespace separates the tokens of the
+# free-text inputs (template, style prefix, identity, snippet texts, LLM completion) is a dimension of its own.  ``resep`` rewrites
+# every whitespace run of a text to one kind (token content and token count untouched).  ASCII whitespace only.
+SEP_KINDS = ["space", "newline", "tab", "crlf", "mixed"]
+_SEP_ONE = {"space": " ", "newline": "\n", "tab": "\t", "crlf": "\r\n"}
+_SEP_CYCLE = ["\n", " ", "\t", "  ", " \n", "\r\n"]
+_WS_RUN = re.compile(r"[ \t\r\n]+")
+SWEEP_MAX = 64      # budgets are swept over 1 .. min(natural length, SWEEP_MAX) + 1
 
 
-def mk_dialog_bundle(p, ti, si, ri):
-    dlg = {"include_top_k_snippets": 2, "template_file": None, "identity": "You are Clematis the gardener.", "history": []}
+def resep(text, kind):
+    if kind is None or not isinstance(text, str):
+        return text
+    if kind in _SEP_ONE:
+        one = _SEP_ONE[kind]
+        return _WS_RUN.sub(lambda m: one, text)
+    cnt = itertools.count()
+    return _WS_RUN.sub(lambda m: _SEP_CYCLE[next(cnt) % len(_SEP_CYCLE)], text)
+
+
+def mk_dialog_bundle(p, ti, si, ri, sep=None):
+    dlg = {"include_top_k_snippets": 2, "template_file": None, "identity": resep("You are Clematis the gardener.", sep), "history": []}
     if TEMPLATES[ti][1] is not None:
-        dlg["template"] = TEMPLATES[ti][1]
+        dlg["template"] = resep(TEMPLATES[ti][1], sep)
+    retrieved = copy.deepcopy(RETRIEVED[ri])
+    if sep is not None:
+        for h in retrieved:
+            h["text"] = resep(h["text"], sep)
     return {
         "version": "t3-dialog-bundle-v1",
         "now": "2025-09-19T00:00:00+00:00",
-        "agent": {"id": "A", "style_prefix": STYLES[si], "caps": {"tokens": p["tokens"], "ops": p["ops"]}},
+        "agent": {"id": "A", "style_prefix": resep(STYLES[si], sep), "caps": {"tokens": p["tokens"], "ops": p["ops"]}},
         "text": {"input": "hello world", "labels_from_t1": list(LABELS[p["labels"]])},
-        "retrieved": copy.deepcopy(RETRIEVED[ri]),
+        "retrieved": retrieved,
         "dialogue": dlg,
     }
 
 
-def check_speak(p, tag, plan, ti, si, ri):
-    db = mk_dialog_bundle(p, ti, si, ri)
-    db0 = mk_dialog_bundle(p, ti, si, ri)
+def _has_other_ws(u):
+    return any(c.isspace() and c != " " for c in str(u))
+
+
+def check_speak(p, tag, plan, ti, si, ri, sep=None, sweep=False):
+    db = mk_dialog_bundle(p, ti, si, ri, sep)
+    db0 = mk_dialog_bundle(p, ti, si, ri, sep)
     pd0 = plan_dump(plan)
     out = []
     try:
@@ -381,8 +415,14 @@ def check_speak(p, tag, plan, ti, si, ri):
         return [("speak:raises:%s" % type(e).__name__, "speak raised %r; params=%s template=%s" % (e, J(p), TEMPLATES[ti][0]))], None
     n = len(str(utter).split())
     desc = "plan-from=%s params=%s template=%s style=%r snippets=%d" % (tag, J(p), TEMPLATES[ti][0], STYLES[si], len(RETRIEVED[ri]))
+    if sweep:
+        desc += " separators=%s" % (sep or "as-written")
     if n > p["tokens"]:
-        out.append(("speak:over-budget:%s" % ("odd-whitespace-template" if TEMPLATES[ti][0] == "odd-whitespace" else "plain-template"), "utterance has %d whitespace tokens > budget %d: %r; %s" % (n, p["tokens"], utter, desc)))
+        if sweep:
+            cls = "budget-sweep:%s" % ("other-whitespace-separated" if _has_other_ws(utter) else "space-separated")
+        else:
+            cls = "odd-whitespace-template" if TEMPLATES[ti][0] == "odd-whitespace" else "plain-template"
+        out.append(("speak:over-budget:%s" % cls, "utterance has %d whitespace tokens > budget %d: %r; %s" % (n, p["tokens"], utter, desc)))
     if utter2 != utter or metrics != metrics2:
         out.append(("speak:impure", "two calls differ; %s" % desc))
     if db != db0 or plan_dump(plan) != pd0:
@@ -471,7 +511,7 @@ def _bundle_worker(chunk, st: Stats, thorough):
             skey = (repr(_first_speak(plan)), p["labels"], p["tokens"])
             for ti in range(len(TEMPLATES)):
                 for si in range(len(STYLES)):
-                    for ri in range(len(RETRIEVED)):
+                    for ri in range(N_RETRIEVED_MAIN):
                         k = (skey, ti, si, ri)
                         if k in speak_seen:
                             continue
@@ -525,6 +565,157 @@ def _plan_for(p, tag):
     res, _ = rag_answer(ans, p)
     rp, _ = t3_legacy.rag_once(b, plan, lambda payload: copy.deepcopy(res), already_used=False)
     return rp
+
+
+# =====================================================================================================
+# (B2) budget sweep x whitespace kind
+# =====================================================================================================
+# Leg (B) uses the bundle alphabet's budgets (1, 2, [3,] 256), i.e. "almost nothing fits" and "everything fits".  The clamp has
+# to hold for EVERY budget, and the interesting ones lie between 1 and the natural length of the utterance.  This leg therefore
+# derives the budget alphabet from the utterance itself: for every speak input it first renders the utterance with the large
+# budget (256), takes its natural token count n, and then runs every budget 1 .. n+1 (all budgets > n behave like 256).  The
+# same inputs are rendered with every whitespace kind of SEP_KINDS between the tokens.
+SWEEP_S_QUICK = [1.0, 0.0]          # summary / question (+ RequestRetrieve) under the default thresholds
+SWEEP_S_THOROUGH = [1.0, 0.0, 0.6]  # + the mid band (assertion / ack)
+W8 = "w0 w1 w2 w3 w4 w5 w6 w7"
+LLM_SWEEP_TEXTS = ["ok", W8, "calm| " + W8, "1. first point\n2. second point\n\n- third\n- fourth"]
+LLM_SHAPES = ["obj", "dict"]
+LLM_REPORTED = ["honest", "zero"]   # token count the adapter reports for its own completion
+
+
+def _sweep_params(s, li, t):
+    return {"th": None, "s": s, "labels": li, "nodes": 0, "ops": 3, "slice": None, "tokens": t, "k": 64, "owner": "world"}
+
+
+def _sweep_plan(s, li, t, cache=None):
+    key = (s, li, t)
+    if cache is not None and key in cache:
+        return cache[key]
+    plan = t3_policy.deliberate(mk_bundle(_sweep_params(s, li, t)))
+    if cache is not None:
+        cache[key] = plan
+    return plan
+
+
+def sweep_items(thorough):
+    items = []
+    for s in (SWEEP_S_THOROUGH if thorough else SWEEP_S_QUICK):
+        for li in range(len(LABELS)):
+            for ti in range(len(TEMPLATES)):
+                for sep in [None] + SEP_KINDS:      # None = texts as written (odd-whitespace template, multi-line snippets)
+                    for si in range(len(STYLES)):
+                        for ri in range(len(RETRIEVED)):
+                            items.append(("speak", s, li, ti, sep, si, ri))
+    for xi in range(len(LLM_SWEEP_TEXTS)):
+        for sep in [None] + SEP_KINDS:
+            for shape in LLM_SHAPES:
+                for rep in LLM_REPORTED:
+                    for si in range(len(STYLES)):
+                        items.append(("llm", xi, sep, shape, rep, si))
+    return items
+
+
+def _llm_sweep_adapter(xi, sep, shape, rep):
+    text = resep(LLM_SWEEP_TEXTS[xi], sep)
+    cnt = len(text.split()) if rep == "honest" else 0
+    if shape == "dict":
+        return _Adapter(lambda: {"text": text, "tokens": cnt, "truncated": False})
+    return _Adapter(lambda: _Res(text, cnt, False))
+
+
+def check_llm_sweep(xi, sep, shape, rep, si, t):
+    """llm_speak with budget t on one adapter completion.  Returns (violations, (tokens, truncated) | None)."""
+    p = _sweep_params(1.0, 0, t)
+    plan = _sweep_plan(1.0, 0, t)
+    db = mk_dialog_bundle(p, 0, si, 1)
+    desc = "completion=%r separators=%s adapter-shape=%s reported-count=%s style=%r budget=%d" % (
+        LLM_SWEEP_TEXTS[xi], sep or "as-is", shape, rep, STYLES[si], t)
+    try:
+        utter, metrics = t3_dialogue_mod.llm_speak(db, plan, _llm_sweep_adapter(xi, sep, shape, rep))
+    except Exception as e:
+        return [("llm_speak:raises:%s" % type(e).__name__, "llm_speak raised %r; %s" % (e, desc))], None
+    n = len(str(utter).split())
+    if n > t:
+        return [("llm_speak:over-budget:budget-sweep", "utterance has %d whitespace tokens > budget %d: %r; %s" % (n, t, utter, desc))], (n, True)
+    return [], (n, bool(metrics.get("truncated")))
+
+
+def _natural_len(n):
+    return min(max(int(n), 0), SWEEP_MAX)
+
+
+def _sweep_worker(chunk, st: Stats):
+    plans = {}
+    for item in chunk:
+        if item[0] == "speak":
+            _, s, li, ti, sep, si, ri = item
+            base = {"kind": "speak_sweep", "s": s, "labels": li, "template": ti, "sep": sep, "style": si, "retrieved": ri}
+            try:
+                p_big = _sweep_params(s, li, 256)
+                r, oc = check_speak(p_big, "deliberate", _sweep_plan(s, li, 256, plans), ti, si, ri, sep, sweep=True)
+            except Exception as e:   # deliberate itself failing is leg (A)'s finding; keep it a finding here too
+                viol(st, "deliberate:raises:%s" % type(e).__name__, "deliberate raised %r on %s" % (e, J(_sweep_params(s, li, 256))),
+                     {"kind": "bundle", "params": _sweep_params(s, li, 256)})
+                continue
+            st.add("transitions", 2); st.add("validated"); st.add("states"); st.add("sweep_inputs")
+            for sig, what in r:
+                viol(st, sig, what, dict(base, budget=256))
+            if oc is None:
+                continue
+            n_full = _natural_len(oc[0])
+            st.distinct("sweep_natural_lengths", n_full)
+            for t in range(1, n_full + 2):
+                try:
+                    plan = _sweep_plan(s, li, t, plans)
+                except Exception as e:
+                    viol(st, "deliberate:raises:%s" % type(e).__name__, "deliberate raised %r on %s" % (e, J(_sweep_params(s, li, t))),
+                         {"kind": "bundle", "params": _sweep_params(s, li, t)})
+                    continue
+                r, oc2 = check_speak(_sweep_params(s, li, t), "deliberate", plan, ti, si, ri, sep, sweep=True)
+                st.add("transitions", 2); st.add("validated"); st.add("states"); st.add("sweep_speak_cases")
+                if oc2 is not None:
+                    st.distinct("outcomes", ("sweep-speak", (sep or "as-written") if sep in (None, "space") else "other-ws",
+                                             "truncated" if oc2[1] else "fits", "below-natural" if t < n_full else "at-or-above-natural"))
+                    if oc2[1]:
+                        st.add("sweep_truncated")
+                if t < n_full:
+                    st.add("sweep_below_natural"); st.add("nontrivial")
+                for sig, what in r:
+                    viol(st, sig, what, dict(base, budget=t))
+        else:
+            _, xi, sep, shape, rep, si = item
+            base = {"kind": "llm_sweep", "text": xi, "sep": sep, "shape": shape, "reported": rep, "style": si}
+            try:
+                r, oc = check_llm_sweep(xi, sep, shape, rep, si, 256)
+            except Exception as e:
+                viol(st, "deliberate:raises:%s" % type(e).__name__, "deliberate raised %r on %s" % (e, J(_sweep_params(1.0, 0, 256))),
+                     {"kind": "bundle", "params": _sweep_params(1.0, 0, 256)})
+                continue
+            st.add("transitions"); st.add("validated"); st.add("states"); st.add("sweep_inputs")
+            for sig, what in r:
+                viol(st, sig, what, dict(base, budget=256))
+            if oc is None:
+                continue
+            n_full = _natural_len(oc[0])
+            for t in range(1, n_full + 2):
+                try:
+                    r, oc2 = check_llm_sweep(xi, sep, shape, rep, si, t)
+                except Exception as e:
+                    viol(st, "deliberate:raises:%s" % type(e).__name__, "deliberate raised %r on %s" % (e, J(_sweep_params(1.0, 0, t))),
+                         {"kind": "bundle", "params": _sweep_params(1.0, 0, t)})
+                    continue
+                st.add("transitions"); st.add("validated"); st.add("states"); st.add("sweep_llm_cases")
+                if oc2 is not None:
+                    st.distinct("outcomes", ("sweep-llm", "truncated" if oc2[1] else "fits"))
+                    if oc2[1]:
+                        st.add("sweep_truncated")
+                if t < n_full:
+                    st.add("sweep_below_natural"); st.add("nontrivial")
+                for sig, what in r:
+                    viol(st, sig, what, dict(base, budget=t))
+    if chunk and chunk[0][0] == "speak":
+        _, s, li, ti, sep, si, ri = chunk[0]
+        st.sample({"kind": "speak_sweep", "s": s, "labels": li, "template": ti, "sep": sep, "style": si, "retrieved": ri, "budget": 1})
 
 
 # =====================================================================================================
@@ -1212,6 +1403,20 @@ def turn_scenarios(thorough):
                                         continue  # scripted plans bypass the policy; keep one config row for them
                                     yield {"rag": r, "cache": c, "tokens": t, "maxops": m, "policy": pol, "template": tp,
                                            "script": sc, "text": tx}
+    # second product: the budgets BETWEEN 1 and the natural utterance length, on a configured template whose tokens are
+    # separated by newline / tab / CRLF as well as spaces (natural length 6 + labels), through the real turn
+    for t in (TURN_MID_TOKENS_THOROUGH if thorough else TURN_MID_TOKENS_QUICK):
+        for r in (0, 1):
+            for tp in ([TURN_WS_TEMPLATE, templ[1]] if thorough else [TURN_WS_TEMPLATE]):
+                if tp == templ[1] and t in tokens:
+                    continue   # already in the first product
+                for tx in TEXTS:
+                    yield {"rag": r, "cache": True, "tokens": t, "maxops": 8, "policy": None, "template": tp, "script": "none", "text": tx}
+
+
+TURN_WS_TEMPLATE = "one two\nthree {labels}\tfour {intent}\r\nfive"
+TURN_MID_TOKENS_QUICK = [3, 5, 7]
+TURN_MID_TOKENS_THOROUGH = [2, 3, 4, 5, 6, 7, 8, 9]
 
 
 def _reset_caches():
@@ -1463,6 +1668,15 @@ def run(run: Run) -> None:
     params = list(bundle_params(th))
     run.notes["bundles"] = len(params)
     run.pmap(_bundle_worker, params, extra=(th,), chunks=min(len(params), 251))
+    # (B2)
+    sw = sweep_items(th)
+    run.notes["budget_sweep_inputs"] = len(sw)
+    run.pmap(_sweep_worker, sw, chunks=min(len(sw), 96))
+    run.notes["budget_sweep"] = {"speak_cases": run.n.get("sweep_speak_cases", 0), "llm_speak_cases": run.n.get("sweep_llm_cases", 0),
+                                 "truncated_cases": run.n.get("sweep_truncated", 0),
+                                 "cases_with_budget_below_natural_length": run.n.get("sweep_below_natural", 0),
+                                 "distinct_natural_lengths": len(run.sets.get("sweep_natural_lengths", ())),
+                                 "whitespace_kinds": ["as-written"] + SEP_KINDS, "budgets": "1 .. min(natural length, %d) + 1 per input" % SWEEP_MAX}
     # (C)
     scs = list(turn_scenarios(th))
     run.notes["turn_scenarios"] = len(scs)
@@ -1500,12 +1714,23 @@ def run(run: Run) -> None:
     run.rule = ("(A) full product of bundle dimensions (thresholds x s_max around thresholds x labels x touched nodes around eps_edit x op cap x "
                 "slice cap x tokens x k_retrieval x owner) -> deliberate + rag_once(5 answers x already_used); non-trivial = plan with >1 op. "
                 "(B) speak over 7 templates x 3 styles x 2 snippet sets and llm_speak over 6 adapter answers on the produced plans. "
+                "(B2) budget sweep: {summary, question[, mid]} plans x 3 label sets x 7 templates x 3 styles x 3 snippet sets (none, one-line, "
+                "multi-line texts) x 6 whitespace kinds between the tokens of template / style / identity / snippet texts (as written, space, "
+                "newline, tab, CRLF, mixed), each with EVERY "
+                "budget 1 .. n+1 where n = natural token count of that utterance (rendered once with budget 256); same for llm_speak over "
+                "4 completions x 6 whitespace kinds x 2 adapter result shapes x {honest, zero} reported count x 3 styles; non-trivial = "
+                "budget below the natural length. "
                 "(C) two consecutive real turns per scenario (max_rag_loops x orchestrator cache x tokens x max_ops x thresholds x template x "
-                "scripted plan x query text) with a counting t2_semantic seam; non-trivial = a refinement retrieval happened. "
+                "scripted plan x query text, plus a second product {mid budgets} x {template with newline/tab/CRLF separators} x "
+                "max_rag_loops {0,1} x query text) with a counting t2_semantic seam; non-trivial = a refinement retrieval happened. "
                 "(D) every token sequence within the stated length bounds over the base / composite / wrapper alphabets through "
                 "parse_and_validate; non-trivial = accepted strings.")
     run.assume("token budget = t3.tokens >= 1 (the validator rejects tokens < 1; a Speak op with max_tokens=0 is outside the alphabet)")
-    run.assume("utterance length is measured in whitespace-separated tokens (str.split), the unit the dialogue stage documents")
+    run.assume("utterance length is measured in whitespace-separated tokens (str.split), the unit the dialogue stage documents; the "
+               "swept separator alphabet is ASCII whitespace (space, tab, LF, CR LF, runs and mixtures); other Unicode spaces occur only "
+               "where the odd-whitespace template carries them")
+    run.assume("budget sweep: the swept budgets 1 .. n+1 are derived from the natural token count n of the utterance as rendered by the "
+               "implementation with budget 256 (n <= %d for every enumerated input); budgets n+2 .. 255 are represented by 256" % SWEEP_MAX)
     run.assume("sanitiser oracle is one-directional (accepted => acceptable); strings the implementation rejects although a single valid "
                "object is present (raw-size guard, one-line fences) are counted in gap_* but not judged")
     run.assume("full turns run with the scheduler off (slice caps are covered at bundle level) and rule-based backend; retrieval count "
@@ -1531,6 +1756,15 @@ def replay(case):
     if k == "speak":
         p = dict(case["params"])
         res, _ = check_speak(p, case["plan_from"], _plan_for(p, case["plan_from"]), case["template"], case["style"], case["retrieved"])
+        return res
+    if k == "speak_sweep":
+        t = int(case["budget"])
+        p = _sweep_params(case["s"], case["labels"], t)
+        res, _ = check_speak(p, "deliberate", _sweep_plan(case["s"], case["labels"], t), case["template"], case["style"],
+                             case["retrieved"], case["sep"], sweep=True)
+        return res
+    if k == "llm_sweep":
+        res, _ = check_llm_sweep(case["text"], case["sep"], case["shape"], case["reported"], case["style"], int(case["budget"]))
         return res
     if k == "llm_speak":
         p = dict(case["params"])
